@@ -1227,6 +1227,16 @@ static void release_epilogue(ctx_t *c)
     int h[3];
     cx v[3];
 
+    /* the predefined handles are permanent: deleting them is accepted and
+       changes nothing; no handle issued later is one of them */
+    for (int p = 0; p < NPREDEF; ++p) {
+	int before = c->elog.nonwarn;
+	int rc = vnacal_delete_parameter(c->vcp, p);
+	++c->r->transitions;
+	expect_ok(c, "vnacal_delete_parameter", rc, before);
+	if (rc != 0)
+	    return;
+    }
     for (int k = 0; k < 3; ++k) {
 	int before = c->elog.nonwarn;
 	v[k] = 0.31 + 0.02 * k + 0.07 * I * (k + 1);
@@ -1253,6 +1263,22 @@ static void release_epilogue(ctx_t *c)
 	    vnacal_new_free(c->vnp[k]);
 	    c->vnp[k] = NULL;
 	}
+    {
+	static const double pv[3] = { 0.0, 1.0, -1.0 };
+	static const int ph[3] = { VNACAL_MATCH, VNACAL_OPEN, VNACAL_SHORT };
+	for (int p = 0; p < 3; ++p) {
+	    cx got = vnacal_get_parameter_value(c->vcp, ph[p], F0);
+	    ++c->r->transitions;
+	    if (got != pv[p]) {
+		vf_fail(c->r, "wrong:vnacal_get_parameter_value", "predefined "
+			"parameter %d reads %g%+gj after every predefined "
+			"handle was deleted (accepted, documented as without "
+			"effect) and three parameters were made", ph[p],
+			creal(got), cimag(got));
+		return;
+	    }
+	}
+    }
     for (int k = 0; k < 3; ++k) {
 	cx got = vnacal_get_parameter_value(c->vcp, h[k], F0);
 	++c->r->transitions;
